@@ -43,7 +43,9 @@ FAULTS = [
     "@echo", "@echo 1, 2", "@die", "@die 1", "@assert", "@assert 0", "@assert 0, 5", "@assert fwd6, \"late\"\n@defn fwd6, 0", "@entropy", "@db @entropy", "@isdef", "@db @isdef 5", "@db @isdef",
     "@here", "@db @here @here", "@meta", "@meta \"k\"", "@meta 5 5", "@meta \"k\" \"v\",", "@endmeta\n@endmeta",
     "\\", "@db 1 \\", "@db \\\n\\\n\\", "@db 1 \\ 2", "'", "\"", "'ab", "\"abc", "'\\$4'", "\"\\$4\"", "\"\\$", "$", "%", "@", "@db 99999999999", "@db $100000000", "@db 'abcde'", "@db ''", "@db 'ééé'", "@db '😀😀'",
-    "\\\"\\", "\\\"", "\\ \"abc\\", "=", "@db 1 = 2", "`", "§", "\x00", "@db \"\x00\"", "\ufeff@db 1",
+    "\\\"\\", "\\\"", "\\ \"abc\\", "@db @count 3 \\", "@db @hex 3 \\", "@db @bin 3 \\", "@db @count 3", "@db @hex 3", "@dw @count 1 +", "@db @string { \"a\" } \\", "@db @isdef foo \\",
+    "@db @getmeta foo, \"k\" \\", "@parse \"@db 1\" \\", "@db @label { \"a\" } \\", "@each vv, { 1 }\n@db vv\n@endeach \\", "@db 1, @count 2 \\",
+    "=", "@db 1 = 2", "`", "§", "\x00", "@db \"\x00\"", "\ufeff@db 1",
 ]
 
 def nest(kind, depth):
@@ -279,6 +281,7 @@ def run(ck):
     for f in FAULTS:
         for arch in asmk.ARCHES:
             cases.append((arch, (f + "\n").encode("utf8"), "fragment"))
+        cases.append((rng.choice(asmk.ARCHES), f.encode("utf8"), "fragment-no-final-newline"))
         arch, base = rng.choice(corpus)
         lines = base.split("\n")
         k = rng.randrange(len(lines) + 1)
